@@ -9,6 +9,10 @@ From Dns Require Import Base.ListX Model.Present Proofs.EscapeProofs Proofs.Pres
 From Coq Require Import Lia ZifyN ZifyNat ZifyBool.
 Open Scope N_scope.
 
+(* parseAddrHostUnion leaves the member the gateway type does not select empty *)
+Definition gw_addr (k : N) (addr : bytes) : bytes := if (k =? 1) || (k =? 2) then addr else [].
+Definition gw_host (k : N) (host : bytes) : bytes := if k =? 3 then host else [].
+
 (* the value the parser hands back: the printer's normal form of v *)
 Definition norm_val (f : pfield) (v : pval) : pval :=
   match f, v with
@@ -20,8 +24,66 @@ Definition norm_val (f : pfield) (v : pval) : pval :=
   | P_uinfo, V_octet s => V_octet (sprint_txt_body s)
   | P_salt _, V_sized n h => V_sized n (upper_bytes h)
   | P_time, V_time _ t => V_int t
+  | P_names, V_strs l => V_strs (map sprint_name l)
+  | P_ipsecgw, V_gw gt alg addr host => V_gw gt alg (gw_addr gt addr) (gw_host gt host)
+  | P_amtgw, V_gw gt _ addr host => V_gw gt 0 (gw_addr (gt mod 128) addr) (gw_host (gt mod 128) host)
   | _, _ => v
   end.
+
+Definition name_wf (s : bytes) : Prop :=
+  word_ok (sprint_name s) = true /\ to_absolute_name (sprint_name s) = Some (sprint_name s).
+
+(* 16-octet addresses (gateway type 2: not IPv4-mapped, those are printed as dotted quads) *)
+Definition gw6_ok (a : bytes) : Prop := length a = 16%nat /\ wfb a /\ is_v4mapped a = false.
+Definition aaaa_ok (a : bytes) : Prop := length a = 16%nat /\ wfb a.
+
+Lemma first_sep_exists s : first_sep s = 58 -> existsb (N.eqb 58) s = true.
+Proof.
+  induction s as [|c r IH]; cbn [first_sep existsb]; intro H; [discriminate|].
+  destruct ((c =? 46) || (c =? 58) || (c =? 37)) eqn:E.
+  - subst c. reflexivity.
+  - rewrite IH by exact H. apply orb_true_r.
+Qed.
+(* net.ParseIP (net.IP.String ()) for every 16-octet address printed in IPv6 form *)
+Theorem parse_ip_present_ip6 a : length a = 16%nat -> wfb a ->
+  parse_ip (present_ip6 a) = Some a /\ word_ok (present_ip6 a) = true /\
+  existsb (N.eqb 58) (present_ip6 a) = true.
+Proof.
+  intros Hl Hw. destruct (present_ip6_roundtrip a Hl Hw) as (P & W & F).
+  split; [|split; [exact W|now apply first_sep_exists]].
+  unfold parse_ip. rewrite F. exact P.
+Qed.
+Lemma v4mapped_inv a : length a = 16%nat -> is_v4mapped a = true -> a = v4mapped (skipn 12 a).
+Proof.
+  intros Hl H. do 16 (destruct a as [|?b a]; [discriminate|]). destruct a; [|discriminate].
+  cbn [is_v4mapped forallb] in H.
+  repeat match goal with
+         | H : _ && _ = true |- _ => apply andb_prop in H; destruct H
+         | H : (_ =? _) = true |- _ => apply N.eqb_eq in H; subst
+         end.
+  reflexivity.
+Qed.
+(* AAAA.String / AAAA.parse *)
+Theorem aaaa_roundtrip a : aaaa_ok a ->
+  word_ok (present_aaaa a) = true /\ parse_aaaa (present_aaaa a) = Some a.
+Proof.
+  intros [Hl Hw]. unfold present_aaaa, parse_aaaa.
+  assert (Hn : is_nil a = false) by (destruct a; [discriminate|reflexivity]). rewrite Hn.
+  destruct (is_v4mapped a) eqn:Hm.
+  - pose proof (v4mapped_inv a Hl Hm) as E.
+    assert (Hq : length (skipn 12 a) = 4%nat) by (rewrite skipn_length; lia).
+    assert (Hwq : wfb (skipn 12 a)) by (now apply Forall_skipn').
+    destruct (aaaa_v4mapped_roundtrip (skipn 12 a) Hq Hwq) as (P & W).
+    split; [exact W|]. unfold parse_ip. change (first_sep (b_v4in6 ++ present_ip4 (skipn 12 a))) with 58.
+    change (58 =? 46) with false. change (58 =? 58) with true. cbn iota. rewrite P, <- E. reflexivity.
+  - destruct (parse_ip_present_ip6 a Hl Hw) as (P & W & X). split; [exact W|]. now rewrite P, X.
+Qed.
+
+Definition gw_wf (k : N) (addr host : bytes) : Prop :=
+  if k =? 1 then exists q, length q = 4%nat /\ wfb q /\ addr = v4mapped q
+  else if k =? 2 then gw6_ok addr
+  else if k =? 3 then word_ok host = true /\ to_absolute_name host = Some host
+  else True.
 
 Definition wf_val (f : pfield) (v : pval) : Prop :=
   match f, v with
@@ -57,6 +119,17 @@ Definition wf_val (f : pfield) (v : pval) : Prop :=
   | P_nodeid _, V_int n => n < 18446744073709551616
   (* the clock reads 1970 or later *)
   | P_time, V_time now t => (0 <= now)%Z /\ t < 4294967296
+  (* HIP: HitLength and PublicKeyLength are what the parser recomputes; the HIT
+     and the key are one word each; the key is text DecodeString accepts *)
+  | P_hit, V_sized n h => n = (lenN h / 2) mod 256 /\ word_ok h = true
+  | P_pk, V_sized n w => word_ok w = true /\ exists m, b64_declen w = Some m /\ n = m mod 65536
+  | P_names, V_strs l => Forall name_wf l
+  | P_ip6, V_ip4 a => aaaa_ok a
+  (* the gateway in the form its type selects: type 1 an IPv4(-mapped) address,
+     type 2 any other 16-octet address, type 3 a name printed verbatim that is
+     one word toAbsoluteName returns unchanged, any other type: nothing *)
+  | P_ipsecgw, V_gw gt alg addr host => gt < 256 /\ alg < 256 /\ gw_wf gt addr host
+  | P_amtgw, V_gw gt _ addr host => gt < 256 /\ gw_wf (gt mod 128) addr host
   | _, _ => False
   end.
 
@@ -86,6 +159,13 @@ Definition field_items (f : pfield) (v : pval) : list item :=
   | P_eui k, V_int n => [IWord (eui_to_string k n)]
   | P_nodeid up, V_int n => [IWord (nodeid_to_string up n)]
   | P_float, V_word s => [IWord s]
+  | P_hit, V_sized _ h => [IWord h]
+  | P_pk, V_sized _ w => [IWord w]
+  | P_names, V_strs l => map (fun s => IWord (sprint_name s)) l
+  | P_ip6, V_ip4 a => [IWord (present_aaaa a)]
+  | P_ipsecgw, V_gw gt alg addr host => [IWord (dec_bytes gt); IWord (dec_bytes alg); IWord (gateway_text gt addr host)]
+  | P_amtgw, V_gw gt _ addr host =>
+    [IWord (if 128 <=? gt then [49] else [48]); IWord (dec_bytes (gt mod 128)); IWord (gateway_text (gt mod 128) addr host)]
   | _, _ => []
   end.
 
@@ -151,16 +231,19 @@ Proof.
   - apply join_types_items.
   - apply sprint_txt_items.
   - apply join_words_items.
+  - rewrite <- (map_map sprint_name IWord). apply join_words_items.
 Qed.
 
 Lemma field_items_nonempty f v : wf_val f v ->
-  field_items f v = [] -> (f = P_qstrs /\ v = V_strs []) \/ (f = P_types /\ v = V_types []).
+  field_items f v = [] ->
+  (f = P_qstrs /\ v = V_strs []) \/ (f = P_types /\ v = V_types []) \/ (f = P_names /\ v = V_strs []).
 Proof.
   destruct f, v; cbn [wf_val field_items]; try contradiction; intros Hw H; try discriminate.
   - destruct l; [now left|discriminate].
-  - destruct l; [now right|discriminate].
+  - destruct l; [right; now left|discriminate].
   - destruct Hw as [Hl _]. destruct l; discriminate.
   - apply map_eq_nil in H. now apply split_n_nonempty in H.
+  - destruct l; [right; now right|discriminate].
 Qed.
 
 Fixpoint all_items (G : list pfield) (vs : list pval) : list item :=
@@ -186,14 +269,14 @@ Proof.
     cbn [present_fields_go all_items].
     rewrite (IH vs' false Hr (simple_then_rest_tl _ _ Hs) Hq). rewrite present_field_items by exact Hv.
     destruct (field_items f v) as [|i0 its] eqn:Ei.
-    + destruct (field_items_nonempty f v Hv Ei) as [[-> ->]|[-> ->]]; [discriminate|].
-      (* an empty type list: the field is the last one *)
-      destruct G as [|g G2]; [|cbn in Hs; discriminate].
-      inversion Hr; subst. cbn [all_items app render_items orb no_items].
-      destruct first; reflexivity.
-    + assert (Hsep : (if first then [] else match f, v with P_types, V_types [] => [] | _, _ => [32] end)
+    + destruct (field_items_nonempty f v Hv Ei) as [[-> ->]|[[-> ->]|[-> ->]]]; [discriminate| |].
+      (* an empty type list / name list: the field is the last one *)
+      all: destruct G as [|g G2]; [|cbn in Hs; discriminate].
+      all: inversion Hr; subst; cbn [all_items app render_items orb no_items].
+      all: destruct first; reflexivity.
+    + assert (Hsep : (if first then [] else match f, v with P_types, V_types [] => [] | P_names, V_strs [] => [] | _, _ => [32] end)
                      = (if first then [] else [32])).
-      { destruct first; [reflexivity|]. destruct f, v; try reflexivity. destruct l; [discriminate|reflexivity]. }
+      { destruct first; [reflexivity|]. destruct f, v; try reflexivity; (destruct l; [discriminate|reflexivity]). }
       rewrite Hsep.
       destruct (all_items G vs') as [|j0 jts] eqn:Ea.
       * cbn [orb no_items app render_items]. rewrite !app_nil_r.
@@ -223,6 +306,40 @@ Proof. induction ws as [|w r IH]; [reflexivity|]. cbn [map forallb item_ok]. now
 Lemma salt_word_ok h : h = [] \/ (word_ok (upper_bytes h) = true /\ upper_bytes h <> [45]) ->
   word_ok (if is_nil h then [45] else upper_bytes h) = true.
 Proof. intros [->|[H _]]; [reflexivity|]. destruct h; [discriminate|exact H]. Qed.
+
+Lemma first_sep_digits ds r : forallb is_digit ds = true -> first_sep (ds ++ 46 :: r) = 46.
+Proof.
+  induction ds as [|d ds IH]; intro H; [reflexivity|].
+  cbn [forallb] in H. apply andb_prop in H. destruct H as [Hd Hr]. cbn [app first_sep].
+  replace ((d =? 46) || (d =? 58) || (d =? 37)) with false by (unfold is_digit in Hd; lia).
+  now apply IH.
+Qed.
+
+Lemma gateway_roundtrip k addr host : gw_wf k addr host ->
+  word_ok (gateway_text k addr host) = true /\
+  parse_gateway (gateway_text k addr host) k = Ok (gw_addr k addr, gw_host k host).
+Proof.
+  unfold gw_wf, gateway_text, parse_gateway, gw_addr, gw_host.
+  destruct (k =? 1) eqn:E1.
+  - apply N.eqb_eq in E1. subst k. intros (q & Hl & Hw & ->). cbn [N.eqb Pos.eqb orb].
+    destruct q as [|q0 [|q1 [|q2 [|q3 [|? ?]]]]]; try discriminate.
+    replace (ip_string (v4mapped [q0; q1; q2; q3])) with (present_ip4 [q0; q1; q2; q3]) by reflexivity.
+    split; [now apply ip4_word_ok|].
+    assert (Hp : parse_ip (present_ip4 [q0; q1; q2; q3]) = Some (v4mapped [q0; q1; q2; q3])).
+    { unfold parse_ip. replace (first_sep (present_ip4 [q0; q1; q2; q3])) with 46.
+      - rewrite parse_ip4_present by assumption. reflexivity.
+      - symmetry. unfold present_ip4. cbn [map join_bytes app].
+        apply first_sep_digits, dec_bytes_digits. }
+    rewrite Hp. reflexivity.
+  - destruct (k =? 2) eqn:E2.
+    + apply N.eqb_eq in E2. subst k. intros (Hl & Hw & Hm). cbn [N.eqb Pos.eqb orb].
+      destruct (parse_ip_present_ip6 addr Hl Hw) as (Hp & Hwo & _).
+      unfold ip_string. rewrite Hm. destruct addr; [discriminate|]. cbn [is_nil].
+      split; [exact Hwo|]. rewrite Hp, Hm. reflexivity.
+    + cbn [orb]. destruct (k =? 3) eqn:E3.
+      * apply N.eqb_eq in E3. subst k. intros [Hw Ha]. split; [exact Hw|]. cbn [N.eqb]. rewrite Ha. reflexivity.
+      * intros _. split; [reflexivity|]. destruct (k =? 0); reflexivity.
+Qed.
 
 Lemma field_items_ok f v : wf_val f v -> forallb item_ok (field_items f v) = true.
 Proof.
@@ -255,6 +372,14 @@ Proof.
   - destruct (nodeid_roundtrip up n H) as [-> _]. reflexivity.
   - destruct H as [_ H]. now rewrite H.
   - destruct H as [Hn Ht]. rewrite time_to_string_now by assumption. rewrite format_time_word_ok; [reflexivity|lia].
+  - destruct H as [_ H]. now rewrite H.
+  - destruct H as [H _]. now rewrite H.
+  - rewrite forallb_forall. intros i Hi. apply in_map_iff in Hi. destruct Hi as (s & <- & Hs).
+    rewrite Forall_forall in H. destruct (H s Hs) as [Hw _]. exact Hw.
+  - destruct (aaaa_roundtrip _ H) as [-> _]. reflexivity.
+  - destruct H as (_ & _ & H). rewrite !dec_word_ok. rewrite (proj1 (gateway_roundtrip _ _ _ H)). reflexivity.
+  - destruct H as (_ & H). rewrite dec_word_ok. rewrite (proj1 (gateway_roundtrip _ _ _ H)).
+    destruct (128 <=? gt); reflexivity.
 Qed.
 
 Lemma all_items_ok G : forall vs, Forall2 wf_val G vs -> forallb item_ok (all_items G vs) = true.
@@ -286,12 +411,27 @@ Proof.
       * rewrite B. rewrite IH by exact Hr. now rewrite <- app_assoc.
 Qed.
 
+Lemma parse_names_words l : forall acc, Forall name_wf l ->
+  parse_names_go (items_toks (map (fun s => IWord (sprint_name s)) l) ++ [TNewline]) acc = Ok (acc ++ map sprint_name l).
+Proof.
+  induction l as [|t r IH]; intros acc H.
+  - cbn. now rewrite app_nil_r.
+  - inversion H as [|? ? [_ Ht] Hr]; subst. cbn [map items_toks item_toks].
+    destruct r as [|t2 r2].
+    + cbn [map app parse_names_go]. rewrite Ht. reflexivity.
+    + cbn [map app parse_names_go]. rewrite Ht.
+      change (IWord (sprint_name t2) :: map (fun s => IWord (sprint_name s)) r2)
+        with (map (fun s => IWord (sprint_name s)) (t2 :: r2)).
+      rewrite IH by exact Hr. now rewrite <- app_assoc.
+Qed.
+
 (* a simple field: its one item is read back as the normal form of the value *)
 Lemma single_ok f v : is_simple f = true -> wf_val f v ->
-  exists i, field_items f v = [i] /\ forall r, read_single f (item_toks i ++ r) = Ok (norm_val f v, r).
+  field_items f v <> [] /\ forall r, read_single f (items_toks (field_items f v) ++ r) = Ok (norm_val f v, r).
 Proof.
   destruct f, v; cbn [is_simple is_rest negb wf_val]; try discriminate; try contradiction; intros _ H;
-    eexists; (split; [reflexivity|]); intro r; cbn [item_toks app read_single is_err tok_text norm_val].
+    (split; [cbn [field_items]; discriminate|]); intro r;
+    cbn [field_items items_toks item_toks app read_single is_err tok_text norm_val].
   - now rewrite parse_uint_dec.
   - now rewrite parse_uint_dec.
   - destruct H as [_ ->]. reflexivity.
@@ -321,6 +461,30 @@ Proof.
   - (* P_float *) destruct H as [-> _]. reflexivity.
   - (* P_time *) destruct H as [Hn Ht]. rewrite time_to_string_now by assumption.
     rewrite string_to_time_format by lia. cbn [bind]. now rewrite N2Z.id.
+  - (* P_hit *) destruct H as [-> Hw]. apply word_ok_nonempty in Hw. destruct s; [congruence|reflexivity].
+  - (* P_pk *) destruct H as (Hw & m & Hm & ->). apply word_ok_nonempty in Hw. destruct s; [congruence|].
+    cbn [is_nil]. rewrite Hm. reflexivity.
+  - (* P_ip6 *) destruct (aaaa_roundtrip _ H) as [_ ->]. reflexivity.
+  - (* P_ipsecgw *) destruct H as (Hg & Ha & H). unfold read_gw.
+    cbn [next_text is_err tok_text tl bind]. rewrite !parse_uint_dec by (cbn; lia).
+    cbn [next_text is_err tok_text tl bind]. rewrite (proj2 (gateway_roundtrip _ _ _ H)). reflexivity.
+  - (* P_amtgw *) destruct H as (Hg & H). unfold read_gw.
+    cbn [next_text is_err tok_text tl bind].
+    assert (Hm : gt mod 128 < 2 ^ 8) by (pose proof (N.mod_lt gt 128 ltac:(lia)); cbn; lia).
+    destruct (N.leb_spec 128 gt) as [Hge|Hlt].
+    + replace (negb (bytes_eqb [49] [48] || bytes_eqb [49] [49])) with false by reflexivity.
+      rewrite parse_uint_dec by exact Hm.
+      replace (bytes_eqb [49] [49]) with true by reflexivity.
+      assert (Hmod : gt mod 128 = gt - 128).
+      { symmetry. apply (N.mod_unique gt 128 1); lia. }
+      replace (gt mod 128 <? 128) with true by (rewrite Hmod; lia). cbn [andb].
+      replace (gt mod 128 + 128) with gt by (rewrite Hmod; lia).
+      cbn [next_text is_err tok_text tl bind]. rewrite (proj2 (gateway_roundtrip _ _ _ H)). reflexivity.
+    + replace (negb (bytes_eqb [48] [48] || bytes_eqb [48] [49])) with false by reflexivity.
+      rewrite parse_uint_dec by exact Hm.
+      replace (bytes_eqb [48] [49]) with false by reflexivity. cbn [andb].
+      rewrite !(N.mod_small gt 128) by lia. rewrite (N.mod_small gt 128) in H by lia.
+      cbn [next_text is_err tok_text tl bind]. rewrite (proj2 (gateway_roundtrip _ _ _ H)). reflexivity.
 Qed.
 
 (* one step of parse_fields on a simple field *)
@@ -365,6 +529,8 @@ Proof.
     reflexivity.
   - (* SMIMEA *)
     unfold ending_to_string. rewrite ets_words. cbn [app bind]. rewrite split_n_concat by lia. reflexivity.
+  - (* HIP rendezvous servers *)
+    rewrite parse_names_words by exact H. reflexivity.
 Qed.
 
 (* the same after the blank that separates it from a preceding field *)
@@ -389,15 +555,20 @@ Proof.
   - (* SMIMEA: endingToString skips the blank *)
     pose proof (parse_rest_field P_hexsplit v eq_refl Hv) as P.
     destruct (field_items P_hexsplit v) as [|j0 jts] eqn:Ej.
-    + destruct (field_items_nonempty _ _ Hv Ej) as [[? _]|[? _]]; discriminate.
+    + destruct (field_items_nonempty _ _ Hv Ej) as [[? _]|[[? _]|[? _]]]; discriminate.
     + cbn [parse_fields] in *. unfold ending_to_string in *. cbn [ets_go]. exact P.
+  - destruct v; cbn [wf_val] in Hv; try contradiction. cbn [field_items].
+    destruct l as [|t l]; [reflexivity|]. cbn [map].
+    change (IWord (sprint_name t) :: map (fun s => IWord (sprint_name s)) l)
+      with (map (fun s => IWord (sprint_name s)) (t :: l)).
+    cbn [parse_fields parse_names_go]. rewrite parse_names_words by exact Hv. reflexivity.
 Qed.
 
 Definition norm_all (G : list pfield) (vs : list pval) : list pval :=
   map (fun p => norm_val (fst p) (snd p)) (combine G vs).
 
 Lemma simple_items_nonempty f v : is_simple f = true -> wf_val f v -> field_items f v <> [].
-Proof. intros Hs Hv. destruct (single_ok f v Hs Hv) as (w & -> & _). discriminate. Qed.
+Proof. intros Hs Hv. now destruct (single_ok f v Hs Hv). Qed.
 
 Lemma lone_is_rest g : is_lone g = true -> is_rest g = true.
 Proof. destruct g; try discriminate; reflexivity. Qed.
@@ -415,9 +586,9 @@ Proof.
     destruct G' as [|g G'']; [|cbn [simple_then_rest] in Hs; unfold is_simple in Hs; rewrite Ef in Hs; discriminate].
     inversion Hr; subst. cbn [all_items]. rewrite app_nil_r. now apply parse_rest_field.
   - assert (Hsf : is_simple f = true) by (unfold is_simple; now rewrite Ef).
-    destruct (single_ok f v Hsf Hv) as (i & Ei & Er). rewrite Ei. cbn [app].
+    destruct (single_ok f v Hsf Hv) as (Ei & Er).
     destruct G' as [|g G''].
-    + inversion Hr; subst. cbn [all_items items_toks].
+    + inversion Hr; subst. cbn [all_items]. rewrite app_nil_r.
       rewrite parse_fields_single by exact Hsf. rewrite Er. cbn [bind parse_fields slurp_remainder]. reflexivity.
     + assert (Hq' : existsb is_lone (g :: G'') = false).
       { destruct Hq as [Hq|[f0 Hq]]; [|discriminate]. cbn [existsb] in Hq. apply orb_false_elim in Hq. now destruct Hq. }
@@ -434,12 +605,13 @@ Proof.
         unfold norm_all. cbn [combine map fst snd].
         destruct (field_items g vg) as [|j0 jts] eqn:Ej; rewrite ?Ej in P.
         -- (* only an empty type list prints nothing *)
-           cbn [items_toks]. rewrite parse_fields_single by exact Hsf. rewrite Er. cbn [bind].
+           rewrite app_nil_r. rewrite parse_fields_single by exact Hsf. rewrite Er. cbn [bind].
            rewrite Eg. destruct g; try discriminate;
              try (destruct vg; cbn [wf_val] in Hvg; try contradiction; cbn [field_items] in Ej; discriminate).
            ++ cbn zeta. rewrite P. reflexivity.
-           ++ destruct (field_items_nonempty _ _ Hvg Ej) as [[? _]|[? _]]; discriminate.
-        -- rewrite items_toks_cons by discriminate. rewrite <- app_assoc. cbn [app].
+           ++ destruct (field_items_nonempty _ _ Hvg Ej) as [[? _]|[[? _]|[? _]]]; discriminate.
+           ++ cbn zeta. rewrite P. reflexivity.
+        -- rewrite items_toks_app by (exact Ei || discriminate). rewrite <- app_assoc. cbn [app].
            rewrite parse_fields_single by exact Hsf. rewrite Er. cbn [bind]. rewrite Eg.
            destruct g; try discriminate; cbn zeta; cbn [tl]; rewrite P; reflexivity.
       * (* another simple field follows: skip the blank *)
@@ -448,7 +620,7 @@ Proof.
         assert (Hna : all_items (g :: G'') (vg :: vs'') <> []).
         { cbn [all_items]. destruct (field_items g vg); [congruence|discriminate]. }
         destruct (all_items (g :: G'') (vg :: vs'')) as [|a0 ats] eqn:Ea; [congruence|].
-        rewrite items_toks_cons by discriminate. rewrite <- app_assoc. cbn [app].
+        rewrite items_toks_app by (exact Ei || discriminate). rewrite <- app_assoc. cbn [app].
         rewrite parse_fields_single by exact Hsf. rewrite Er. cbn [bind]. rewrite Eg. cbn zeta. cbn [tl].
         rewrite <- Ea. rewrite IH; [reflexivity|discriminate|exact Hs'|now left|exact Hr].
 Qed.
@@ -469,7 +641,7 @@ Qed.
 
 (* ---- what the normal form denotes ---- *)
 Theorem norm_meaning f v : wf_val f v ->
-  match f with P_name => True | _ => meaning f (norm_val f v) = meaning f v end.
+  match f with P_name | P_names => True | _ => meaning f (norm_val f v) = meaning f v end.
 Proof.
   destruct f, v; cbn [wf_val]; try contradiction; intro H; cbn [norm_val meaning]; try reflexivity; try exact I.
   - f_equal. f_equal. rewrite map_map. apply map_ext_in. intros s Hs. rewrite Forall_forall in H.
@@ -481,4 +653,7 @@ Proof.
     destruct (H s Hs) as [Hw _]. now apply unescape_sprint_txt_body.
   - destruct H as [Hw _]. f_equal. f_equal. now apply unescape_sprint_txt_body.
   - destruct H as (_ & Hw & _). f_equal. f_equal. now apply unhex_upper.
+  - unfold gw_addr, gw_host. destruct ((gt =? 1) || (gt =? 2)); destruct (gt =? 3); reflexivity.
+  - cbn zeta. unfold gw_addr, gw_host.
+    destruct ((gt mod 128 =? 1) || (gt mod 128 =? 2)); destruct (gt mod 128 =? 3); reflexivity.
 Qed.
